@@ -165,6 +165,8 @@ Definition finish (c : cfg) (ipq : bytes -> ipres) (sch : scheme) (login host : 
   let h2 := lower_host c host in
   if c_check c && negb (forallb (hostchars c) h2) then None else
   let h3 := strip_td h2 in
+  (* if (!*foundHost || strlen(foundHost) >= SQUIDHOSTNAMELEN) return false;   (1eaabce) *)
+  if is_nil h3 || (uri_SQUIDHOSTNAMELEN <=? lenN h3) then None else
   if has_dotdot h3 || starts_dot h3 then None else
   if (port <? 1) || (65535 <? port) then None else
   match ws_path c urlpath with
@@ -344,6 +346,8 @@ Definition path_acc (u : uri) : bytes :=
           then uri_slash_path else []
   | p => p
   end.
+(* Encode(path(), PathChars() + '?'): the per-byte images bm_uri_path are regenerated from
+   absolutePath() itself, so they follow the set the code uses now (3db1355 keeps '?') *)
 Definition absolute_path (u : uri) : bytes := uri_encode_path (path_acc u).
 
 Definition absolute (u : uri) : bytes :=
